@@ -224,8 +224,15 @@ impl Report {
         }
         let dir = verif_dir().join("replays").join(&self.prop);
         let mut replay_paths = vec![];
+        // replays of an earlier run of this tier are stale either way
+        if let Ok(rd) = std::fs::read_dir(&dir) {
+            for f in rd.flatten() {
+                if f.file_name().to_string_lossy().starts_with(self.tier.name()) {
+                    let _ = std::fs::remove_file(f.path());
+                }
+            }
+        }
         if !unknown.is_empty() {
-            let _ = std::fs::remove_dir_all(&dir);
             std::fs::create_dir_all(&dir).ok();
             for (i, v) in unknown.iter().enumerate().take(25) {
                 let p = dir.join(format!("{}-{:03}.json", self.tier.name(), i));
